@@ -412,4 +412,439 @@ Section Step.
       destruct (e_op e) eqn:Ho; cbn in H, Hrv; auto.
       + right. subst r. auto.
   Qed.
+
+  (* the second primitive of a fail (redis) is only ever executed by the holder *)
+  Lemma step_mid_fail : e_op e = OFail -> e_pc e <> 0 -> gh k (e_n e) = GHeld c.
+  Proof.
+    intros Ho Hpc. unfold sched_step in He.
+    destruct (pick (cls k c)) as [[[[o n] pc] rest]|] eqn:Hp; [|discriminate].
+    cbn in He. inversion He; subst e; cbn in *. subst o.
+    destruct (pick_cases _ _ _ _ _ Hp) as [[Hcu _] | [_ [H0 _]]]; [|contradiction].
+    destruct HI as [_ Hcl]. destruct (Hcl _ _ _ _ Hcu) as [_ [Hm Hgd]].
+    destruct b; cbn in Hm; try contradiction. auto.
+  Qed.
+
+  Lemma step_gh : forall m, gh k' m = ghost_ev (gh k) e m.
+  Proof.
+    intros m. unfold k'. unfold sched_step in *.
+    destruct (pick (cls k c)) as [[[[o n] pc] rest]|]; [|discriminate].
+    cbn in He. inversion He; subst e. reflexivity.
+  Qed.
 End Step.
+
+Lemma step_none : forall P b k c, snd (sched_step P b k c) = None -> fst (sched_step P b k c) = k.
+Proof.
+  intros P b k c H. unfold sched_step in *.
+  destruct (pick (cls k c)) as [[[[o n] pc] rest]|]; [discriminate | reflexivity].
+Qed.
+
+(* ================================================================== whole traces *)
+(* what one event tells, relative to the observable status g before it *)
+Definition ev_ok (g : name -> gst) (e : event) : Prop :=
+  wf_cond (e_op e) (e_pc e) (e_c e) (g (e_n e)) /\
+  (e_op e = ORelease -> e_pc e = 0) /\
+  (e_op e = OFail -> e_pc e <> 0 -> g (e_n e) = GHeld (e_c e)) /\
+  match e_ret e with
+  | None => ghost_upd (g (e_n e)) (e_op e) (e_c e) (e_pc e) None = g (e_n e)
+  | Some r => r = snd (spec_op (e_op e) (e_c e) (g (e_n e))) /\
+              ghost_upd (g (e_n e)) (e_op e) (e_c e) (e_pc e) (Some r) = fst (spec_op (e_op e) (e_c e) (g (e_n e)))
+  end.
+
+Fixpoint trace_ok (g : name -> gst) (tr : list event) : Prop :=
+  match tr with
+  | [] => True
+  | e :: r => ev_ok g e /\ trace_ok (ghost_ev g e) r
+  end.
+
+Lemma ghost_ev_same : forall g e,
+  ghost_ev g e (e_n e) = ghost_upd (g (e_n e)) (e_op e) (e_c e) (e_pc e) (e_ret e).
+Proof. intros. unfold ghost_ev. apply updg_same. Qed.
+
+Lemma ghost_ev_other : forall g e n, e_n e <> n -> ghost_ev g e n = g n.
+Proof. intros g e n H. unfold ghost_ev. apply updg_other. auto. Qed.
+
+Lemma ghost_ev_ext : forall g g' e, (forall m, g m = g' m) -> forall m, ghost_ev g e m = ghost_ev g' e m.
+Proof.
+  intros g g' e H m. unfold ghost_ev, updg. destruct (Nat.eqb m (e_n e)); auto. now rewrite H.
+Qed.
+
+Lemma step_ev_ok : forall P b k c e g,
+  params_ok P b = true -> repaired b = true -> Inv P b k -> wf_step k c = true ->
+  snd (sched_step P b k c) = Some e -> (forall m, g m = gh k m) -> ev_ok g e.
+Proof.
+  intros P b k c e g Hok Hrep HI Hwf He Hg.
+  destruct (step_facts P b k c e Hok Hrep HI Hwf He) as [Hc Hf].
+  unfold ev_ok. rewrite Hg, Hc.
+  split; [eapply step_wf_cond; eauto|].
+  split; [eapply step_release_pc0; eauto|].
+  split; [eapply step_mid_fail; eauto|].
+  assert (Hgh : gh (fst (sched_step P b k c)) (e_n e) = ghost_ev (gh k) e (e_n e)) by (eapply step_gh; eauto).
+  rewrite ghost_ev_same, Hc in Hgh.
+  destruct (e_ret e) as [r|].
+  - destruct Hf as [Hr [Hg' _]]. split; auto. rewrite <- Hgh. exact Hg'.
+  - destruct Hf as [_ Hg']. rewrite <- Hgh. apply Hg'.
+Qed.
+
+Lemma run_trace_ok : forall P b s k g,
+  params_ok P b = true -> repaired b = true -> Inv P b k -> wf_run P b k s = true ->
+  (forall m, g m = gh k m) -> trace_ok g (snd (run P b k s)).
+Proof.
+  intros P b s. induction s as [|c s IH]; intros k g Hok Hrep HI Hwf Hg; cbn [run snd fst]; [exact I|].
+  cbn [wf_run] in Hwf. apply andb_prop in Hwf. destruct Hwf as [Hw1 Hw2].
+  destruct (step_cases P b k c Hok Hrep HI Hw1) as [_ HI'].
+  destruct (snd (sched_step P b k c)) as [e|] eqn:He.
+  - cbn [trace_ok]. split; [apply (step_ev_ok P b k c e g); auto|].
+    apply IH with (k := fst (sched_step P b k c)); auto.
+    intros m. rewrite (step_gh P b k c e He m). apply ghost_ev_ext. exact Hg.
+  - apply IH with (k := fst (sched_step P b k c)); auto.
+    intros m. rewrite (step_none P b k c He). apply Hg.
+Qed.
+
+Lemma trace_ok_init : forall P b hists s,
+  params_ok P b = true -> repaired b = true -> wf_run P b (init hists) s = true ->
+  trace_ok all_free (trace_of P b hists s).
+Proof.
+  intros. unfold trace_of. apply run_trace_ok; auto. apply Inv_init.
+Qed.
+
+Lemma trace_ok_app : forall a b g, trace_ok g (a ++ b) -> trace_ok g a /\ trace_ok (fold_left ghost_ev a g) b.
+Proof.
+  induction a as [|x a IH]; intros b g H; cbn in *; auto.
+  destruct H as [Hx H]. destruct (IH _ _ H) as [H1 H2]. auto.
+Qed.
+
+Lemma lockop_eqb_eq : forall a b, lockop_eqb a b = true -> a = b.
+Proof. intros [] []; cbn; intros; try discriminate; reflexivity. Qed.
+
+Lemma oores_true : forall x, oores_eqb x (Some (OB true)) = true -> x = Some (OB true).
+Proof. intros [[[]| |]|]; cbn; intros; try discriminate; reflexivity. Qed.
+
+Lemma ores_eqb_refl : forall x, ores_eqb x x = true.
+Proof. intros [[]| |]; reflexivity. Qed.
+
+(* ---- the three statuses persist as long as nothing ends them *)
+Lemma held_kept : forall n c tr g,
+  trace_ok g tr -> g n = GHeld c ->
+  (forall x, In x tr -> ~ (e_c x = c /\ e_n x = n /\ (e_op x = ORelease \/ e_op x = OFail))) ->
+  fold_left ghost_ev tr g n = GHeld c.
+Proof.
+  intros n c tr. induction tr as [|a tr IH]; intros g Hok Hg Hno; cbn [fold_left]; auto.
+  destruct Hok as [Hev Hrest]. apply IH; auto; [|intros x Hx; apply Hno; right; exact Hx].
+  destruct (Nat.eq_dec (e_n a) n) as [Hn | Hn]; [|rewrite ghost_ev_other; auto].
+  assert (Hno' := Hno a (or_introl eq_refl)).
+  subst n. rewrite ghost_ev_same. destruct Hev as (Hwf & Hrel & Hmid & Hret). rewrite Hg in *.
+  destruct (e_op a) eqn:Ho; cbn [ghost_upd]; auto.
+  - destruct (e_ret a) as [r|]; auto. destruct Hret as [Hr _]. cbn in Hr. subst r. reflexivity.
+  - exfalso. rewrite (Hrel eq_refl) in Hwf. cbn in Hwf.
+    destruct Hwf as [Hw | Hw]; [|discriminate]. inversion Hw. apply Hno'. auto.
+  - exfalso. destruct (e_pc a) eqn:Hpc.
+    + cbn in Hwf. destruct Hwf as [Hw | Hw]; [|discriminate]. inversion Hw. apply Hno'. auto.
+    + assert (Hw : GHeld c = GHeld (e_c a)) by (apply Hmid; auto). inversion Hw. apply Hno'. auto.
+Qed.
+
+Lemma failed_kept : forall n tr g,
+  trace_ok g tr -> g n = GFailed ->
+  (forall x, In x tr -> ~ (e_n x = n /\ e_op x = ORelease)) ->
+  fold_left ghost_ev tr g n = GFailed.
+Proof.
+  intros n tr. induction tr as [|a tr IH]; intros g Hok Hg Hno; cbn [fold_left]; auto.
+  destruct Hok as [Hev Hrest]. apply IH; auto; [|intros x Hx; apply Hno; right; exact Hx].
+  destruct (Nat.eq_dec (e_n a) n) as [Hn | Hn]; [|rewrite ghost_ev_other; auto].
+  assert (Hno' := Hno a (or_introl eq_refl)).
+  subst n. rewrite ghost_ev_same. destruct Hev as (Hwf & Hrel & Hmid & Hret). rewrite Hg in *.
+  destruct (e_op a) eqn:Ho; cbn [ghost_upd]; auto.
+  - destruct (e_ret a) as [r|]; auto. destruct Hret as [Hr _]. cbn in Hr. subst r. reflexivity.
+  - exfalso. apply Hno'. auto.
+  - destruct (e_ret a) as [[[]| |]|]; reflexivity.
+Qed.
+
+Lemma free_kept : forall n tr g,
+  trace_ok g tr -> g n = GFree ->
+  (forall x, In x tr -> e_n x = n -> e_op x = OGet -> e_ret x = None) ->
+  fold_left ghost_ev tr g n = GFree.
+Proof.
+  intros n tr. induction tr as [|a tr IH]; intros g Hok Hg Hno; cbn [fold_left]; auto.
+  destruct Hok as [Hev Hrest]. apply IH; auto; [|intros x Hx; apply Hno; right; exact Hx].
+  destruct (Nat.eq_dec (e_n a) n) as [Hn | Hn]; [|rewrite ghost_ev_other; auto].
+  assert (Hno' := Hno a (or_introl eq_refl) Hn).
+  subst n. rewrite ghost_ev_same. destruct Hev as (Hwf & Hrel & Hmid & Hret). rewrite Hg in *.
+  destruct (e_op a) eqn:Ho; cbn [ghost_upd]; auto.
+  - rewrite (Hno' eq_refl). reflexivity.
+  - exfalso. rewrite (Hrel eq_refl) in Hwf. cbn in Hwf. destruct Hwf; discriminate.
+  - exfalso. destruct (e_pc a) eqn:Hpc.
+    + cbn in Hwf. destruct Hwf; discriminate.
+    + assert (Hw : GFree = GHeld (e_c a)) by (apply Hmid; auto). discriminate.
+Qed.
+
+(* ---- T1 *)
+Lemma trace_exclusion : forall g0 tr1 e1 tr2 e2 tr3 n c r,
+  trace_ok g0 (tr1 ++ e1 :: tr2 ++ e2 :: tr3) ->
+  e_op e1 = OGet -> e_n e1 = n -> e_c e1 = c -> e_ret e1 = Some (OB true) ->
+  (forall x, In x tr2 -> ~ (e_c x = c /\ e_n x = n /\ (e_op x = ORelease \/ e_op x = OFail))) ->
+  e_op e2 = OGet -> e_n e2 = n -> e_ret e2 = Some r -> r = OB false.
+Proof.
+  intros g0 tr1 e1 tr2 e2 tr3 n c r Hok Ho1 Hn1 Hc1 Hr1 Hno Ho2 Hn2 Hr2.
+  apply trace_ok_app in Hok. destruct Hok as [_ Hok]. cbn [trace_ok] in Hok. destruct Hok as [_ Hok].
+  apply trace_ok_app in Hok. destruct Hok as [Hok2 Hok3]. cbn [trace_ok] in Hok3. destruct Hok3 as [Hev _].
+  set (g1 := fold_left ghost_ev tr1 g0) in *.
+  assert (Hg : ghost_ev g1 e1 n = GHeld c).
+  { subst n. rewrite ghost_ev_same, Ho1, Hr1, Hc1. reflexivity. }
+  assert (Hk := held_kept n c tr2 _ Hok2 Hg Hno).
+  destruct Hev as (_ & _ & _ & Hret). rewrite Hr2, Hn2, Hk, Ho2 in Hret. destruct Hret as [Hr _]. exact Hr.
+Qed.
+
+(* ---- T2 / T5: a free lock is won by the first get that returns *)
+Lemma free_then_get_wins : forall g tr2 e tr3 n r,
+  trace_ok g (tr2 ++ e :: tr3) -> g n = GFree ->
+  (forall x, In x tr2 -> e_n x = n -> e_op x = OGet -> e_ret x = None) ->
+  e_op e = OGet -> e_n e = n -> e_ret e = Some r -> r = OB true.
+Proof.
+  intros g tr2 e tr3 n r Hok Hg Hno Ho Hn Hr.
+  apply trace_ok_app in Hok. destruct Hok as [Hok2 Hok3]. cbn [trace_ok] in Hok3. destruct Hok3 as [Hev _].
+  assert (Hk := free_kept n tr2 g Hok2 Hg Hno).
+  destruct Hev as (_ & _ & _ & Hret). rewrite Hr, Hn, Hk, Ho in Hret. destruct Hret as [Hr' _]. exact Hr'.
+Qed.
+
+Lemma trace_free_get_wins : forall g0 tr1 tr2 e tr3 n r,
+  trace_ok g0 (tr1 ++ tr2 ++ e :: tr3) -> fold_left ghost_ev tr1 g0 n = GFree ->
+  (forall x, In x tr2 -> e_n x = n -> e_op x = OGet -> e_ret x = None) ->
+  e_op e = OGet -> e_n e = n -> e_ret e = Some r -> r = OB true.
+Proof.
+  intros g0 tr1 tr2 e tr3 n r Hok Hg Hno Ho Hn Hr.
+  apply trace_ok_app in Hok. destruct Hok as [_ Hok].
+  eapply free_then_get_wins; eauto.
+Qed.
+
+Lemma trace_reacquire : forall g0 tr1 e1 tr2 e2 tr3 n r,
+  trace_ok g0 (tr1 ++ e1 :: tr2 ++ e2 :: tr3) ->
+  e_op e1 = ORelease -> e_n e1 = n ->
+  (forall x, In x tr2 -> e_n x = n -> e_op x = OGet -> e_ret x = None) ->
+  e_op e2 = OGet -> e_n e2 = n -> e_ret e2 = Some r -> r = OB true.
+Proof.
+  intros g0 tr1 e1 tr2 e2 tr3 n r Hok Ho1 Hn1 Hno Ho2 Hn2 Hr2.
+  apply trace_ok_app in Hok. destruct Hok as [_ Hok]. cbn [trace_ok] in Hok. destruct Hok as [Hev1 Hok].
+  eapply free_then_get_wins; eauto.
+  subst n. rewrite ghost_ev_same, Ho1. destruct Hev1 as (_ & Hrel & _). rewrite (Hrel Ho1). reflexivity.
+Qed.
+
+(* ---- T2: exactly one winner *)
+Lemma get_won_inv : forall n e, get_won n e = true -> e_n e = n /\ e_op e = OGet /\ e_ret e = Some (OB true).
+Proof.
+  intros n e H. unfold get_won, ev_on in H.
+  apply andb_prop in H. destruct H as [H H3]. apply andb_prop in H. destruct H as [H1 H2].
+  apply Nat.eqb_eq in H1. apply lockop_eqb_eq in H2. apply oores_true in H3. auto.
+Qed.
+
+Lemma get_returned_false : forall n e, get_returned n e = false -> e_n e = n -> e_op e = OGet -> e_ret e = None.
+Proof.
+  intros n e H Hn Ho. unfold get_returned, ev_on in H. rewrite Hn, Ho, Nat.eqb_refl in H. cbn in H.
+  destruct (e_ret e); [discriminate | reflexivity].
+Qed.
+
+Lemma get_returned_inv : forall n e, get_returned n e = true -> e_n e = n /\ e_op e = OGet /\ exists r, e_ret e = Some r.
+Proof.
+  intros n e H. unfold get_returned, ev_on in H.
+  apply andb_prop in H. destruct H as [H H3]. apply andb_prop in H. destruct H as [H1 H2].
+  apply Nat.eqb_eq in H1. apply lockop_eqb_eq in H2. destruct (e_ret e) as [r|]; [|discriminate]. eauto.
+Qed.
+
+Lemma no_win_while_held : forall n c tr g,
+  trace_ok g tr -> g n = GHeld c ->
+  (forall x, In x tr -> e_n x = n -> e_op x <> ORelease /\ e_op x <> OFail) ->
+  filter (get_won n) tr = [].
+Proof.
+  intros n c tr. induction tr as [|a tr IH]; intros g Hok Hg Hno; cbn [filter]; auto.
+  assert (Hstay : ghost_ev g a n = GHeld c).
+  { apply (held_kept n c [a] g); auto.
+    - cbn [trace_ok] in *. destruct Hok; auto.
+    - intros x [Hx | []] (_ & Hn & Hop). subst x.
+      destruct (Hno a (or_introl eq_refl) Hn) as [H1 H2]. destruct Hop; contradiction. }
+  destruct Hok as [Hev Hrest].
+  destruct (get_won n a) eqn:W.
+  - exfalso. apply get_won_inv in W. destruct W as (Hn & Ho & Hr).
+    destruct Hev as (_ & _ & _ & Hret). rewrite Hr, Hn, Hg, Ho in Hret. destruct Hret as [Hret _]. discriminate.
+  - apply (IH (ghost_ev g a)); auto. intros x Hx. apply Hno. right. exact Hx.
+Qed.
+
+Lemma one_winner : forall n tr g,
+  trace_ok g tr -> g n = GFree ->
+  (forall x, In x tr -> e_n x = n -> e_op x <> ORelease /\ e_op x <> OFail) ->
+  length (filter (get_won n) tr) <= 1 /\
+  (existsb (get_returned n) tr = true -> length (filter (get_won n) tr) = 1).
+Proof.
+  intros n tr. induction tr as [|a tr IH]; intros g Hok Hg Hno; cbn [filter existsb].
+  - split; [cbn; lia | discriminate].
+  - assert (Hno' : forall x, In x tr -> e_n x = n -> e_op x <> ORelease /\ e_op x <> OFail)
+      by (intros x Hx; apply Hno; right; exact Hx).
+    destruct (get_returned n a) eqn:R.
+    + apply get_returned_inv in R. destruct R as (Hn & Ho & r & Hr).
+      destruct Hok as [Hev Hrest]. assert (Hev' := Hev).
+      destruct Hev' as (_ & _ & _ & Hret). rewrite Hr, Hn, Hg, Ho in Hret. cbn in Hret. destruct Hret as [Hrv _]. subst r.
+      assert (W : get_won n a = true).
+      { unfold get_won, ev_on. rewrite Hn, Ho, Hr, Nat.eqb_refl. reflexivity. }
+      rewrite W.
+      assert (Hg' : ghost_ev g a n = GHeld (e_c a)).
+      { subst n. rewrite ghost_ev_same, Ho, Hr. reflexivity. }
+      rewrite (no_win_while_held n (e_c a) tr _ Hrest Hg' Hno'). cbn. split; [lia | reflexivity].
+    + assert (W : get_won n a = false).
+      { destruct (get_won n a) eqn:W; auto. apply get_won_inv in W. destruct W as (Hn & Ho & Hr).
+        rewrite (get_returned_false n a R Hn Ho) in Hr. discriminate. }
+      rewrite W. cbn [orb].
+      assert (Hg' : ghost_ev g a n = GFree).
+      { apply (free_kept n [a] g); auto.
+        - cbn [trace_ok] in *. destruct Hok; auto.
+        - intros x [Hx | []] Hn Ho. subst x. apply (get_returned_false n a R Hn Ho). }
+      destruct Hok as [Hev Hrest]. apply (IH (ghost_ev g a)); auto.
+Qed.
+
+Lemma trace_one_winner : forall g0 tr1 tr2 n,
+  trace_ok g0 (tr1 ++ tr2) -> fold_left ghost_ev tr1 g0 n = GFree ->
+  (forall x, In x tr2 -> e_n x = n -> e_op x <> ORelease /\ e_op x <> OFail) ->
+  length (filter (get_won n) tr2) <= 1 /\
+  (existsb (get_returned n) tr2 = true -> length (filter (get_won n) tr2) = 1).
+Proof.
+  intros g0 tr1 tr2 n Hok Hg Hno. apply trace_ok_app in Hok. destruct Hok as [_ Hok].
+  eapply one_winner; eauto.
+Qed.
+
+(* ---- T3 *)
+Lemma trace_failed_sticky : forall g0 tr1 e1 tr2 e2 tr3 n r,
+  trace_ok g0 (tr1 ++ e1 :: tr2 ++ e2 :: tr3) ->
+  e_op e1 = OFail -> e_n e1 = n -> e_ret e1 = Some (OB true) ->
+  (forall x, In x tr2 -> ~ (e_n x = n /\ e_op x = ORelease)) ->
+  e_n e2 = n -> e_ret e2 = Some r ->
+  (e_op e2 = OGet -> r = OB false) /\ (e_op e2 = OIsLocked -> r = OB true) /\
+  (e_op e2 = OIsFailed -> r = OB true) /\ (e_op e2 = OFail -> r = OB true).
+Proof.
+  intros g0 tr1 e1 tr2 e2 tr3 n r Hok Ho1 Hn1 Hr1 Hno Hn2 Hr2.
+  apply trace_ok_app in Hok. destruct Hok as [_ Hok]. cbn [trace_ok] in Hok. destruct Hok as [_ Hok].
+  apply trace_ok_app in Hok. destruct Hok as [Hok2 Hok3]. cbn [trace_ok] in Hok3. destruct Hok3 as [Hev _].
+  set (g1 := fold_left ghost_ev tr1 g0) in *.
+  assert (Hg : ghost_ev g1 e1 n = GFailed).
+  { subst n. rewrite ghost_ev_same, Ho1, Hr1. reflexivity. }
+  assert (Hk := failed_kept n tr2 _ Hok2 Hg Hno).
+  destruct Hev as (_ & _ & _ & Hret). rewrite Hr2, Hn2, Hk in Hret. destruct Hret as [Hr _].
+  repeat split; intros Ho; rewrite Ho in Hr; exact Hr.
+Qed.
+
+(* ---- T6 / T4: the trace is a sequential run of the atomic specification *)
+Lemma spec_of_trace_ok : forall tr g g',
+  (forall m, g m = g' m) -> trace_ok g tr ->
+  spec_accepts g' tr = true /\ (forall m, spec_final g' tr m = fold_left ghost_ev tr g m).
+Proof.
+  induction tr as [|e tr IH]; intros g g' Hext Hok; cbn [spec_accepts spec_final fold_left].
+  - split; auto.
+  - destruct Hok as [Hev Hrest]. destruct Hev as (_ & _ & _ & Hret).
+    destruct (e_ret e) as [v|] eqn:Hr.
+    + destruct Hret as [Hv Hg]. rewrite <- (Hext (e_n e)). rewrite <- Hv, ores_eqb_refl. cbn [andb].
+      apply (IH (ghost_ev g e)); auto.
+      intros m. unfold ghost_ev, updg. destruct (Nat.eqb m (e_n e)); auto. rewrite Hr. exact Hg.
+    + apply (IH (ghost_ev g e)); auto.
+      intros m. unfold ghost_ev, updg. destruct (Nat.eqb m (e_n e)) eqn:E; auto.
+      apply Nat.eqb_eq in E. subst m. rewrite Hr, Hret. apply Hext.
+Qed.
+
+Lemma spec_accepts_name : forall tr g n,
+  spec_accepts g tr = true -> spec_accepts1 (g n) (filter (ev_on n) tr) = true.
+Proof.
+  induction tr as [|e tr IH]; intros g n H; cbn [filter spec_accepts spec_accepts1] in *; auto.
+  unfold ev_on at 1. destruct (Nat.eqb (e_n e) n) eqn:E.
+  - apply Nat.eqb_eq in E. cbn [spec_accepts1]. destruct (e_ret e) as [v|]; [|apply IH; exact H].
+    apply andb_prop in H. destruct H as [H1 H2]. subst n. rewrite H1. cbn [andb].
+    specialize (IH _ (e_n e) H2). rewrite updg_same in IH. exact IH.
+  - apply Nat.eqb_neq in E. destruct (e_ret e) as [v|]; [|apply IH; exact H].
+    apply andb_prop in H. destruct H as [_ H2].
+    specialize (IH _ n H2). rewrite updg_other in IH by auto. exact IH.
+Qed.
+
+(* ================================================================== theorems about runs *)
+Section Runs.
+  Variables (P : params) (b : backend) (hists : list (list (lockop * name))) (s : list cid).
+  Hypothesis Hok : params_ok P b = true.
+  Hypothesis Hrep : repaired b = true.
+  Hypothesis Hwf : wf_run P b (init hists) s = true.
+  Let tr := trace_of P b hists s.
+
+  Lemma Htr : trace_ok all_free tr.
+  Proof. apply trace_ok_init; auto. Qed.
+
+  Lemma run_exclusion : forall tr1 e1 tr2 e2 tr3 n c r,
+    tr = tr1 ++ e1 :: tr2 ++ e2 :: tr3 ->
+    e_op e1 = OGet -> e_n e1 = n -> e_c e1 = c -> e_ret e1 = Some (OB true) ->
+    (forall x, In x tr2 -> ~ (e_c x = c /\ e_n x = n /\ (e_op x = ORelease \/ e_op x = OFail))) ->
+    e_op e2 = OGet -> e_n e2 = n -> e_ret e2 = Some r -> r = OB false.
+  Proof. intros tr1 e1 tr2 e2 tr3 n c r E. assert (H := Htr). rewrite E in H. eapply trace_exclusion; eauto. Qed.
+
+  Lemma run_free_get_wins : forall tr1 tr2 e tr3 n r,
+    tr = tr1 ++ tr2 ++ e :: tr3 -> status_after tr1 n = GFree ->
+    (forall x, In x tr2 -> e_n x = n -> e_op x = OGet -> e_ret x = None) ->
+    e_op e = OGet -> e_n e = n -> e_ret e = Some r -> r = OB true.
+  Proof. intros tr1 tr2 e tr3 n r E. assert (H := Htr). rewrite E in H. eapply trace_free_get_wins; eauto. Qed.
+
+  Lemma run_one_winner : forall tr1 tr2 n,
+    tr = tr1 ++ tr2 -> status_after tr1 n = GFree ->
+    (forall x, In x tr2 -> e_n x = n -> e_op x <> ORelease /\ e_op x <> OFail) ->
+    length (filter (get_won n) tr2) <= 1 /\
+    (existsb (get_returned n) tr2 = true -> length (filter (get_won n) tr2) = 1).
+  Proof. intros tr1 tr2 n E. assert (H := Htr). rewrite E in H. eapply trace_one_winner; eauto. Qed.
+
+  Lemma run_failed_sticky : forall tr1 e1 tr2 e2 tr3 n r,
+    tr = tr1 ++ e1 :: tr2 ++ e2 :: tr3 ->
+    e_op e1 = OFail -> e_n e1 = n -> e_ret e1 = Some (OB true) ->
+    (forall x, In x tr2 -> ~ (e_n x = n /\ e_op x = ORelease)) ->
+    e_n e2 = n -> e_ret e2 = Some r ->
+    (e_op e2 = OGet -> r = OB false) /\ (e_op e2 = OIsLocked -> r = OB true) /\
+    (e_op e2 = OIsFailed -> r = OB true) /\ (e_op e2 = OFail -> r = OB true).
+  Proof. intros tr1 e1 tr2 e2 tr3 n r E. assert (H := Htr). rewrite E in H. eapply trace_failed_sticky; eauto. Qed.
+
+  Lemma run_reacquire : forall tr1 e1 tr2 e2 tr3 n r,
+    tr = tr1 ++ e1 :: tr2 ++ e2 :: tr3 ->
+    e_op e1 = ORelease -> e_n e1 = n ->
+    (forall x, In x tr2 -> e_n x = n -> e_op x = OGet -> e_ret x = None) ->
+    e_op e2 = OGet -> e_n e2 = n -> e_ret e2 = Some r -> r = OB true.
+  Proof. intros tr1 e1 tr2 e2 tr3 n r E. assert (H := Htr). rewrite E in H. eapply trace_reacquire; eauto. Qed.
+
+  Lemma run_linearizable :
+    spec_accepts all_free tr = true /\
+    (forall n, spec_final all_free tr n = status_after tr n) /\
+    (forall n, sh (cfg_after P b hists s) n = repr P b (spec_final all_free tr n)).
+  Proof.
+    destruct (spec_of_trace_ok tr all_free all_free (fun m => eq_refl) Htr) as [H1 H2].
+    split; auto. split; [exact H2|].
+    intros n. rewrite H2. unfold status_after, tr, trace_of, cfg_after.
+    destruct (Inv_reach P b hists s Hok Hrep Hwf) as [Hsh _]. rewrite Hsh, ghost_observable. reflexivity.
+  Qed.
+
+  Lemma run_per_name : forall n, spec_accepts1 GFree (filter (ev_on n) tr) = true.
+  Proof.
+    intros n. destruct run_linearizable as [H _]. apply (spec_accepts_name tr all_free n H).
+  Qed.
+
+  (* at every primitive boundary of the run the store holds exactly the observable status *)
+  Lemma run_store_status : forall s1 s2 n, s = s1 ++ s2 ->
+    sh (cfg_after P b hists s1) n = repr P b (status_after (trace_of P b hists s1) n).
+  Proof.
+    intros s1 s2 n E. rewrite E, wf_run_app in Hwf. apply andb_prop in Hwf. destruct Hwf as [Hw1 _].
+    unfold status_after, trace_of, cfg_after.
+    destruct (Inv_reach P b hists s1 Hok Hrep Hw1) as [Hsh _]. rewrite Hsh, ghost_observable. reflexivity.
+  Qed.
+
+  (* one primitive: a non-final one changes nothing at all; a final one nothing for other names *)
+  Lemma run_step_frame : forall s1 c s2 e, s = s1 ++ c :: s2 ->
+    let k := cfg_after P b hists s1 in
+    let k' := fst (sched_step P b k c) in
+    snd (sched_step P b k c) = Some e ->
+    (e_ret e = None -> forall m, sh k' m = sh k m) /\
+    (forall m, m <> e_n e -> sh k' m = sh k m /\ status_after (trace_of P b hists s1 ++ [e]) m = status_after (trace_of P b hists s1) m).
+  Proof.
+    intros s1 c s2 e E k k' He. rewrite E, wf_run_app in Hwf. apply andb_prop in Hwf. destruct Hwf as [Hw1 Hw2].
+    cbn [wf_run] in Hw2. apply andb_prop in Hw2. destruct Hw2 as [Hwc _].
+    assert (HI := Inv_reach P b hists s1 Hok Hrep Hw1).
+    destruct (step_facts P b k c e Hok Hrep HI Hwc He) as [_ Hf].
+    split.
+    - intros Hr. rewrite Hr in Hf. apply Hf.
+    - intros m Hm. split.
+      + destruct (step_other_name P b k c e Hok Hrep HI Hwc He m) as [H _]; auto.
+      + unfold status_after. rewrite fold_left_app. cbn [fold_left]. apply ghost_ev_other. auto.
+  Qed.
+End Runs.
